@@ -240,10 +240,22 @@ func (e *progEnv) build(name string, op []string) bigslice.Slice {
 		nshard, chunk := atoi(op[1]), atoi(op[2])
 		ks, vs := parseRows(op[3:])
 		ft := faultFor(e.run, name)
-		return bigslice.ReaderFunc(nshard, func(shard int, pos *int, ok, ov []int64) (int, error) {
+		// chunk >= 10: the reader also makes idle reads — every other call returns no rows and a nil error, as the
+		// ReaderFunc contract allows — and delivers chunk%10 rows in the calls between
+		idle := chunk >= 10
+		if idle {
+			chunk = chunk%10 + 1
+		}
+		type rstate struct{ pos, calls int }
+		return bigslice.ReaderFunc(nshard, func(shard int, st *rstate, ok, ov []int64) (int, error) {
 			if err := ft.failure(); err != nil {
 				return 0, err
 			}
+			st.calls++
+			if idle && st.calls%2 == 0 {
+				return 0, nil
+			}
+			pos := &st.pos
 			n := 0
 			for n < len(ok) && n < chunk {
 				i := shard + *pos*nshard
